@@ -11,6 +11,45 @@ import pykoop
 import pykoop.lmi_regressors as L
 
 SOLVER = {'solver': 'cvxopt'}
+
+# cvxopt can fail to terminate on some data (observed once in ~1500 fits: conelp never leaves its line search).  A solve that
+# takes longer than SOLVE_SECONDS is abandoned like any other numerical failure of the solver (the fit raises, nothing is
+# claimed about it); counted in SOLVER_TIME_LIMIT_HITS.
+SOLVE_SECONDS = 120
+SOLVER_TIME_LIMIT_HITS = [0]
+
+
+class SolverTimeLimit(ZeroDivisionError):
+    pass
+
+
+def _install_solver_time_limit():
+    import signal
+    import threading
+    import picos
+    if getattr(picos.Problem.solve, '_verif_time_limit', False):
+        return
+    orig = picos.Problem.solve
+
+    def solve(self, *a, **k):
+        if threading.current_thread() is not threading.main_thread():
+            return orig(self, *a, **k)
+
+        def _raise(*_):
+            SOLVER_TIME_LIMIT_HITS[0] += 1
+            raise SolverTimeLimit(f'the solver did not return within {SOLVE_SECONDS} s')
+        old = signal.signal(signal.SIGALRM, _raise)
+        signal.alarm(SOLVE_SECONDS)
+        try:
+            return orig(self, *a, **k)
+        finally:
+            signal.alarm(0)
+            signal.signal(signal.SIGALRM, old)
+    solve._verif_time_limit = True
+    picos.Problem.solve = solve
+
+
+_install_solver_time_limit()
 # the class-level solver defaults as they are when the library is imported (before any fit of this process)
 PRISTINE_SOLVER_DEFAULTS = dict(L.LmiRegressor._default_solver_params)
 warnings.filterwarnings('ignore')
